@@ -4,6 +4,7 @@ import TlsModel.Fmt
 import TlsModel.FmtAid
 import TlsModel.Msgs
 import TlsModel.Ssl2
+import TlsModel.Gen.Codec
 /-
   Driver for C15.  Formats are named as in `Tls.Msgs.table` (plus `ext:<ctx>`,
   `extdata:<cls>`, `serverHelloAuto`); values use the text syntax of TlsModel/FmtAid.lean.
@@ -106,6 +107,100 @@ def fmtOf (name : String) (input : Option Bytes) (v : Option Val) : Option Msgs.
     | none, none => some { fmt := Msgs.serverHello }
   else Msgs.lookup name
 
+/-! ### the regenerated codec.py (TlsModel/Gen/Codec.lean), run on Python ints of either sign
+    gw <op> …   like `w`, reply: ok <hex> | valueError | decodeError | other
+    gp <hex> <op> …   like `p`, errors rendered as err:<exception>
+    gpw <type> <hex>  HandshakeMsg.postWrite -/
+
+def intList? (s : String) : Option (List Int) :=
+  if s == "-" then some [] else (s.splitOn ",").mapM (·.toInt?)
+
+def intTuples? (s : String) : Option (List (List Int)) :=
+  if s == "-" then some [] else (s.splitOn ";").mapM intList?
+
+def excOut : PyO.Exc → String
+  | .valueError => "valueError" | .decodeError => "decodeError" | .structError => "structError"
+  | .overflowError => "overflowError" | .zeroDivision => "zeroDivision" | .indexError => "indexError"
+  | .other => "other"
+
+def gwOut : PyO.M PyO.Writer → String
+  | .ok w => "ok " ++ hexOut w.bytes
+  | .error e => excOut e
+
+def intsOut (l : List Int) : String := if l.isEmpty then "-" else ",".intercalate (l.map toString)
+
+def gpStep (p : PyO.Parser) (op : String) : Option (PyO.M (String × PyO.Parser)) :=
+  match op.splitOn ":" with
+  | ["get", n] => do
+    let n ← n.toInt?
+    some ((Codec.Gen.Parser_get p n).map fun (x, p) => ("n" ++ toString x, p))
+  | ["fix", n] => do
+    let n ← n.toInt?
+    some ((Codec.Gen.Parser_getFixBytes p n).map fun (b, p) => ("b" ++ toHex b, p))
+  | ["var", ll] => do
+    let ll ← ll.toInt?
+    some ((Codec.Gen.Parser_getVarBytes p ll).map fun (b, p) => ("b" ++ toHex b, p))
+  | ["skip", n] => do
+    let n ← n.toInt?
+    some ((Codec.Gen.Parser_skip_bytes p n).map fun p => ("ok", p))
+  | ["fixlist", n, k] => do
+    let n ← n.toInt?
+    let k ← k.toInt?
+    some ((Codec.Gen.Parser_getFixList p n k).map fun (l, p) => ("l" ++ intsOut l, p))
+  | ["varlist", n, ll] => do
+    let n ← n.toInt?
+    let ll ← ll.toInt?
+    some ((Codec.Gen.Parser_getVarList p n ll).map fun (l, p) => ("l" ++ intsOut l, p))
+  | ["vartuple", n, k, ll] => do
+    let n ← n.toInt?
+    let k ← k.toInt?
+    let ll ← ll.toInt?
+    some ((Codec.Gen.Parser_getVarTupleList p n k ll).map fun (l, p) =>
+      ("t" ++ (if l.isEmpty then "-" else ";".intercalate (l.map intsOut)), p))
+  | ["start", ll] => do
+    let ll ← ll.toInt?
+    some ((Codec.Gen.Parser_startLengthCheck p ll).map fun p => ("ok", p))
+  | ["set", n] => do
+    let n ← n.toInt?
+    some ((Codec.Gen.Parser_setLengthCheck p n).map fun p => ("ok", p))
+  | ["stop"] => some ((Codec.Gen.Parser_stopLengthCheck p).map fun p => ("ok", p))
+  | ["at"] => some ((Codec.Gen.Parser_atLengthCheck p).map fun (b, p) => (boolOut b, p))
+  | ["rem"] => some ((Codec.Gen.Parser_getRemainingLength p).map fun (n, p) => ("r" ++ toString n, p))
+  | ["idx"] => some (.ok ("i" ++ toString p.index, p))
+  | _ => none
+
+def gpRun : PyO.Parser → List String → List String → Option String
+  | _, [], acc => some ("|".intercalate acc.reverse)
+  | p, op :: ops, acc =>
+    match gpStep p op with
+    | none => none
+    | some (.error e) => some ("|".intercalate (("err:" ++ excOut e) :: acc).reverse)
+    | some (.ok (s, p)) => gpRun p ops (s :: acc)
+
+def handleGen : List String → Option String
+  | ["gw", "add", w, x, n] => do
+    some (gwOut (Codec.Gen.Writer_add ⟨← ofHexT w⟩ (← x.toInt?) (← n.toInt?)))
+  | ["gw", "one", w, x] => do some (gwOut (Codec.Gen.Writer_addOne ⟨← ofHexT w⟩ (← x.toInt?)))
+  | ["gw", "two", w, x] => do some (gwOut (Codec.Gen.Writer_addTwo ⟨← ofHexT w⟩ (← x.toInt?)))
+  | ["gw", "three", w, x] => do some (gwOut (Codec.Gen.Writer_addThree ⟨← ofHexT w⟩ (← x.toInt?)))
+  | ["gw", "four", w, x] => do some (gwOut (Codec.Gen.Writer_addFour ⟨← ofHexT w⟩ (← x.toInt?)))
+  | ["gw", "fixseq", w, n, xs] => do
+    some (gwOut (Codec.Gen.Writer_addFixSeq ⟨← ofHexT w⟩ (← intList? xs) (← n.toInt?)))
+  | ["gw", "varseq", w, n, ll, xs] => do
+    some (gwOut (Codec.Gen.Writer_addVarSeq ⟨← ofHexT w⟩ (← intList? xs) (← n.toInt?) (← ll.toInt?)))
+  | ["gw", "vartuple", w, n, ll, ts] => do
+    some (gwOut (Codec.Gen.Writer_addVarTupleSeq ⟨← ofHexT w⟩ (← intTuples? ts) (← n.toInt?) (← ll.toInt?)))
+  | ["gw", "varbytes", w, ll, d] => do
+    some (gwOut (Codec.Gen.Writer_add_var_bytes ⟨← ofHexT w⟩ (← ofHexT d) (← ll.toInt?)))
+  | ["gpw", t, body] => do
+    match Codec.Gen.HandshakeMsg_postWrite (← t.toInt?) ⟨← ofHexT body⟩ with
+    | .ok b => some ("ok " ++ hexOut b)
+    | .error e => some (excOut e)
+  | "gp" :: hex :: ops => do
+    let b ← ofHexT hex
+    gpRun ⟨b, 0, 0, 0⟩ ops []
+  | _ => none
+
 /-- the SSLv2-framed structures have hand-written codecs (TlsModel/Ssl2.lean) -/
 def ssl2Codec? : String → Option ((Val → Option Bytes) × (Bytes → Except Err (Val × Bytes)))
   | "recordHeader2" => some (Ssl2.rh2EncodeVal, Ssl2.rh2DecodeVal)
@@ -190,4 +285,4 @@ def handle : List String → Option String
     pRun (Parser.new b) ops []
   | _ => none
 
-def main : IO Unit := protoMain (fun l => (handleSsl2 l).orElse (fun _ => handle l))
+def main : IO Unit := protoMain (fun l => ((handleGen l).orElse (fun _ => handleSsl2 l)).orElse (fun _ => handle l))
